@@ -43,7 +43,8 @@ fn main() {
 fn run_check(id: &str, tier: &str) -> i32 {
     let seed = seed_from_env();
     let t = Timer::start();
-    let stats = Stats::default();
+    let stats: &'static Stats = Box::leak(Box::new(Stats::default()));
+    start_case_watchdog(id, tier, seed, stats, std::time::Instant::now());
     let mut outs: Vec<checks::CheckOutcome> = Vec::new();
     let mut rules: Vec<String> = Vec::new();
     let mut assumptions: Vec<String> = Vec::new();
@@ -190,6 +191,21 @@ fn run_replay(id: &str, file: &str) -> i32 {
         Err(_) => return run_replay_raw(id, file),
     };
     let engine = v["engine"].as_str().unwrap_or("lockstep");
+    if engine != "stress" {
+        // an in-process case that never returns (see common::start_case_watchdog)
+        let secs: u64 = std::env::var("VERIF_REPLAY_TIMEOUT_SECS").ok().and_then(|s| s.parse().ok()).unwrap_or(120);
+        let (id, file) = (id.to_string(), file.to_string());
+        std::thread::spawn(move || {
+            std::thread::sleep(std::time::Duration::from_secs(secs));
+            if id == "C20" {
+                println!("counterexample: [case_does_not_terminate] the replayed case is still running after {} s (deterministic, single-threaded): an operation of this history never completes", secs);
+                println!("VIOLATION property={} replay={}", id, file);
+                std::process::exit(1);
+            }
+            println!("INCONCLUSIVE property={} the replayed case is still running after {} s", id, secs);
+            std::process::exit(2);
+        });
+    }
     match engine {
         "lockstep" => {
             let case: lockstep::Case = serde_json::from_value(v["case"].clone()).expect("bad case");
